@@ -97,8 +97,8 @@ impl Property for C05 {
     }
     fn cases(&self, tier: Tier) -> u32 {
         match tier {
-            Tier::Quick => 2500,
-            Tier::Thorough => 30000,
+            Tier::Quick => 25_000,
+            Tier::Thorough => 250_000,
         }
     }
     fn rule(&self) -> String {
